@@ -5,7 +5,6 @@ import (
 	"go/ast"
 	"go/token"
 	"go/types"
-	"sort"
 	"strings"
 )
 
@@ -326,6 +325,7 @@ type fnCtx struct {
 	callbacks []*Stmt
 	litN      *int
 	ctor      bool
+	noRecord  bool // pathOf is resolving a call argument for inlining: not a source-level lock prefix
 }
 
 func (t *Trans) newCtx(fi *FuncInfo, inline bool) *fnCtx {
@@ -375,7 +375,7 @@ func (c *fnCtx) pathOf(e ast.Expr) (Ref, bool) {
 		if !ok {
 			return Ref{}, false
 		}
-		if v, ok := sel.Obj().(*types.Var); ok {
+		if v, ok := sel.Obj().(*types.Var); ok && !c.noRecord {
 			if _, seen := c.t.pathFlds[v]; !seen {
 				c.t.pathFlds[v] = c.pos(x.Pos())
 			}
